@@ -58,6 +58,9 @@ def gen_broker_case(rng, stream='valid', n_ops=None, exact=False, fee=None, npf=
         else:
             fee = ['pct', rng.choice([0.0, 0.001, 0.002, 0.0025, 0.01, 0.5, 1.0, rng.random()]),
                    rng.choice([0.0, 0.005, 0.0025, 0.1, rng.random() * 0.3])]
+    if fee[0] == 'pct' and rng.random() < 0.06:
+        # a rebate: a negative rate (the ledger must hold for any rates)
+        fee = ['pct', (-1 / 1024 if exact else rng.choice([-0.0002, -0.003, -0.01])), fee[2] if rng.random() < 0.5 else 0.0]
     amt = (lambda lo, hi: dy(rng, lo, hi, 4)) if exact else (
         lambda lo, hi: rng.choice([round(rng.uniform(lo, hi), 2), round(rng.uniform(lo, hi), 3), rng.uniform(lo, hi)]))
     funds = amt(0, 200000) if rng.random() < 0.8 else 0.0
@@ -235,7 +238,9 @@ def gen_broker_case(rng, stream='valid', n_ops=None, exact=False, fee=None, npf=
                     # every order of the case carries the same caller-supplied order id
                     'dup_ids': rng.random() < 0.15,
                     # the fee model is assigned to the broker's public attribute after construction
-                    'fee_late': rng.random() < 0.15},
+                    'fee_late': rng.random() < 0.15,
+                    # the documented slippage_model option is given an object (it is accepted and unused)
+                    'slippage_probe': rng.random() < 0.1},
             'quotes': quotes, 'ops': ops, 'exact': exact, 'assets': assets}
     if rng.random() < 0.12:
         case = rc.recase(case, rc.mapping(rng))          # symbols with lower-case letters
@@ -570,13 +575,14 @@ def gen_portfolio_case(rng, stream='valid', n_ops=None, exact=False, real_qty=Fa
                 comm = rng.choice([0.0, round(rng.uniform(0, 50), 2), rng.uniform(0, 50)])
             if rng.random() < 0.12:
                 comm = -comm          # a rebate
-            ops.append(['txn', a, q, t2, price[a], comm])
+            # (rarely) a fill at a price of exactly zero - bonus shares, only a fee is paid: an opening fill is not price-checked
+            ops.append(['txn', a, q, t2, (0.0 if rng.random() < 0.04 else price[a]), comm])
             known_cash = False
             t = t2
         else:
             ops.append(['mark', a, price[a], t2])
     case = {'kind': 'portfolio', 'stream': stream + (':exact' if exact else ''), 'start': start, 'cash': cash,
-            'ops': ops, 'exact': exact}
+            'ops': ops, 'exact': exact, 'tzmix': rng.random() < 0.2}
     if rng.random() < 0.12:
         case = rc.recase(case, rc.mapping(rng))
         case['stream'] += ':mixed-case-symbols'
